@@ -486,6 +486,63 @@ fn words(alpha: &[L], max_len: usize) -> Vec<Vec<L>> {
     all
 }
 
+/// The word enumeration runs on 3 records. Positions beyond that (a constant, a table, a cache of
+/// a few entries) are covered by a direct sweep on a file of 40 records: seek(k) then iterate for
+/// every k, random access after every seek, for the shape reader and the complete reader.
+fn many_records(ctx: &Ctx, rep: &mut Report) {
+    const M: usize = 40;
+    let mut r = Rng::derive(ctx.seed, &[tag("c15-many")]);
+    let shapes: Vec<Shape> = (0..M).map(|i| gen::shape_exact(3, &mut r, &Cfg::plain(1, 2), 1, 2 + i % 5)).collect();
+    let mut shp = Cursor::new(Vec::new());
+    let mut shx = Cursor::new(Vec::new());
+    let mut dbf = Cursor::new(Vec::new());
+    {
+        let mut w = Writer::new(ShapeWriter::with_shx(&mut shp, &mut shx), table_builder().build_with_dest(&mut dbf));
+        for (i, s) in shapes.iter().enumerate() {
+            with_concrete!(s, x => w.write_shape_and_record(x, &row(i))).expect("harness: writing the 40-record file failed");
+        }
+    }
+    let recs: Vec<D> = shapes.iter().map(|s| s.d().expected_after_roundtrip()).collect();
+    let (shp, shx, dbf) = (shp.into_inner(), shx.into_inner(), dbf.into_inner());
+    for k in 0..=M + 2 {
+        let case = format!("c15:many:seek{}", k);
+        if !ctx.want(&case) {
+            continue;
+        }
+        rep.eval();
+        rep.count("seek_positions_swept_on_a_40_record_file", 1);
+        let res = panicmon::catch(|| -> Result<(), String> {
+            let mut rd = ShapeReader::with_shx(Cursor::new(shp.clone()), Cursor::new(shx.clone())).map_err(|e| err_class(&e))?;
+            rd.seek(k).map_err(|e| format!("seek({}) failed: {}", k, err_class(&e)))?;
+            let got: Vec<D> = rd.iter_shapes().map(|x| x.map(|s| s.d())).collect::<Result<Vec<_>, _>>().map_err(|e| err_class(&e))?;
+            if got[..] != recs[k.min(M)..] {
+                return Err(format!("after seek({}) the iteration yielded {} records, first {:?}; the records from {} on are {}", k, got.len(), got.first().and_then(|d| which(d, &recs)), k.min(M), M - k.min(M)));
+            }
+            // random access right after a seek does not depend on it
+            rd.seek(k).map_err(|e| err_class(&e))?;
+            let i = (k * 7 + 3) % M;
+            match rd.read_nth_shape(i) {
+                Some(Ok(s)) if s.d() == recs[i] => {}
+                _ => return Err(format!("after seek({}) read_nth_shape({}) did not return record {}", k, i, i)),
+            }
+            // the complete reader: rows follow the same position
+            let mut full = Reader::new(ShapeReader::with_shx(Cursor::new(shp.clone()), Cursor::new(shx.clone())).map_err(|e| err_class(&e))?, dbase::Reader::new(Cursor::new(dbf.clone())).map_err(|_| "harness: dbf".to_string())?);
+            full.seek(k).map_err(|e| format!("Reader::seek({}) failed: {}", k, err_class(&e)))?;
+            let pairs = full.iter_shapes_and_records().collect::<Result<Vec<_>, _>>().map_err(|e| err_class(&e))?;
+            let ok = pairs.len() == M - k.min(M) && pairs.iter().enumerate().all(|(j, (s, row))| s.d() == recs[k + j] && row_index(row) == Some(k + j));
+            if !ok {
+                return Err(format!("after Reader::seek({}) the pairs are not (record i, row i) for i = {}..{}", k, k.min(M), M));
+            }
+            Ok(())
+        });
+        match res {
+            Ok(Ok(())) => {}
+            Ok(Err(what)) => rep.violation("many-records/after-seek(k)", &case, J::obj(vec![("records", J::UInt(M as u64)), ("what", J::s(what))])),
+            Err(p) => rep.violation("many-records/panic", &case, J::s(p.class())),
+        }
+    }
+}
+
 pub fn run(ctx: &Ctx) -> Report {
     // (reader kind, equal record sizes, word length bound, typed API variants)
     let configs: Vec<(Kind, bool, usize, bool, bool)> = if cfg!(miri) {
@@ -504,6 +561,9 @@ pub fn run(ctx: &Ctx) -> Report {
         v
     };
     let mut total = Report::default();
+    if !cfg!(miri) {
+        many_records(ctx, &mut total);
+    }
     for (ci, (kind, equal, max_len, typed_api, padded)) in configs.iter().enumerate() {
         // the files hold Point records (equal sizes) or Polyline records (different sizes)
         let typed: Option<i32> = if *typed_api { Some(if *equal { 1 } else { 3 }) } else { None };
